@@ -801,7 +801,25 @@ func conserveRule(w *World, r *Report, rule string, a distAnchors) {
 			inTreeFn[f] = true
 		}
 		shareCalls := func(v ssa.Value, depth int) ([]*ssa.Call, bool) { return shareCallsOf(v, inTreeFn, depth) }
-		if pcs, ok := shareCalls(x, 0); ok {
+		// a credit in a step helper that is handed the value (`k.distributeToShare(ctx, ..., share, calculatedShare)`):
+		// the value is judged in the terms of the function that computed it
+		xr := x
+		if _, isP := x.(*ssa.Parameter); isP && len(e.Chain) > 0 {
+			xr = e.ToRoot(x)
+		}
+		// the instruction of function g through which this credit is reached
+		reachedVia := func(g *ssa.Function) ssa.Instruction {
+			if g == cf {
+				return s.Instr
+			}
+			for _, c := range e.Chain {
+				if c.Caller == g {
+					return c.Instr
+				}
+			}
+			return nil
+		}
+		if pcs, ok := shareCalls(xr, 0); ok {
 			// must have been subtracted from the remainder, dominating the credit (in the crediting function, or in the
 			// helper that computes the share before it returns it)
 			sub := true
@@ -813,8 +831,8 @@ func conserveRule(w *World, r *Report, rule string, a distAnchors) {
 						continue
 					}
 					dom := false
-					if g == cf {
-						dom = instrDominates(c2, s.Instr)
+					if via := reachedVia(g); via != nil {
+						dom = instrDominates(c2, via)
 					} else {
 						dom = true
 						for _, ret := range Returns(g) {
@@ -835,9 +853,31 @@ func conserveRule(w *World, r *Report, rule string, a distAnchors) {
 			r.Check(sub, rule, "share credited in "+s.Method+" was subtracted from the remainder", pos, "Sub(remainder, share) dominates the credit and flows on", "a share is credited to a destination without being taken from the remainder: coins would be counted twice")
 			continue
 		}
-		if chain[x] {
+		if chain[xr] {
 			finals++
-			// only when the primary destination is not Main
+			// only when the primary destination is not Main (tested in the function of the credit or in one of its callers
+			// on the way down)
+			notMainAt := func(f *ssa.Function, via ssa.Instruction) bool {
+				edges := EdgesWhere(f, func(base ssa.Value) (bool, bool) {
+					bo, ok := base.(*ssa.BinOp)
+					if !ok || (bo.Op != token.EQL && bo.Op != token.NEQ) {
+						return false, false
+					}
+					isType := func(v ssa.Value) bool { return loadOfField(v, "Type", nil) }
+					isMain := func(v ssa.Value) bool { s, ok := EvalString(v); return ok && s == "MAIN" }
+					if (isType(bo.X) && isMain(bo.Y)) || (isType(bo.Y) && isMain(bo.X)) {
+						return bo.Op == token.NEQ, true
+					}
+					return false, false
+				})
+				return MustPass(f, edges, via.Block())
+			}
+			notMain := notMainAt(cf, s.Instr)
+			for _, c := range e.Chain {
+				if notMainAt(c.Caller, c.Instr) {
+					notMain = true
+				}
+			}
 			edges := EdgesWhere(cf, func(base ssa.Value) (bool, bool) {
 				bo, ok := base.(*ssa.BinOp)
 				if !ok || (bo.Op != token.EQL && bo.Op != token.NEQ) {
@@ -856,7 +896,8 @@ func conserveRule(w *World, r *Report, rule string, a distAnchors) {
 					once = false
 				}
 			}
-			r.Check(MustPass(cf, edges, s.Instr.Block()) && once, rule, "final remainder credited once, to a non-Main primary destination", pos, "outside any loop, under Type != MAIN", "the remainder is credited inside a loop or also when the primary destination is the main account")
+			_ = edges
+			r.Check(notMain && once, rule, "final remainder credited once, to a non-Main primary destination", pos, "outside any loop, under Type != MAIN", "the remainder is credited inside a loop or also when the primary destination is the main account")
 			// it is the last value of the chain: every subtraction made on the remainder is on its backward slice
 			o := w.Tracer().OriginsVia(e, x, nil)
 			missing := ""
@@ -878,7 +919,7 @@ func conserveRule(w *World, r *Report, rule string, a distAnchors) {
 					f, via = cf, s.Instr
 				}
 				mainEdges := map[Edge]bool{}
-				if lvl == len(e.Chain) {
+				{
 					for _, me := range EdgesWhere(f, func(base ssa.Value) (bool, bool) {
 						bo, ok := base.(*ssa.BinOp)
 						if !ok || (bo.Op != token.EQL && bo.Op != token.NEQ) {
@@ -1310,7 +1351,18 @@ func checkC04(w *World, r *Report) {
 					continue
 				}
 				lvl, on := onChain[s2.Caller]
-				if !on || len(e2.Chain) != lvl {
+				args2 := flatArgs(s2)
+				if !on && len(e2.Chain) > len(e.Chain) && e2.Chain[len(e.Chain)].Caller == f {
+					// the credit stands in a step helper below the function that computes the share and is handed the
+					// share and its destination (`k.distributeToShare(ctx, ..., share, calculatedShare)`): its arguments
+					// are read in the terms of that function
+					lvl, on = len(e.Chain), true
+					below := EffSite{Site: s2, Chain: e2.Chain[len(e.Chain):]}
+					args2 = nil
+					for _, a2 := range flatArgs(s2) {
+						args2 = append(args2, below.ToRoot(a2))
+					}
+				} else if !on || len(e2.Chain) != lvl {
 					continue
 				}
 				samePrefix := true
@@ -1323,7 +1375,7 @@ func checkC04(w *World, r *Report) {
 					continue
 				}
 				hit := false
-				for _, a2 := range flatArgs(s2) {
+				for _, a2 := range args2 {
 					if a2 == ssa.Value(c) {
 						hit = true
 					}
@@ -1346,7 +1398,7 @@ func checkC04(w *World, r *Report) {
 				if isShare {
 					okDest := false
 					shareElem := derefRoot(fracAt)
-					for _, a2 := range flatArgs(s2) {
+					for _, a2 := range args2 {
 						if fa, ok := a2.(*ssa.FieldAddr); ok {
 							if _, f := fieldOf(fa); f == "Destination" && derefRoot(fa.X) == shareElem {
 								okDest = true
@@ -1356,7 +1408,7 @@ func checkC04(w *World, r *Report) {
 					r.Check(okDest, "C04.fraction", "share credited to its own destination", w.Pos(s2.Instr.Pos()), "&share.Destination of the same element", "a share is credited to another destination than its own")
 				} else {
 					burnCredit := strings.Contains(s2.Method, "Burn")
-					for _, a2 := range flatArgs(s2) {
+					for _, a2 := range args2 {
 						if fnv, isF := a2.(*ssa.Function); isF && strings.Contains(fnv.Name(), "Burn") {
 							burnCredit = true // the burn-state finder handed to a shared crediting helper
 						}
